@@ -140,8 +140,10 @@ Type(c) == /\ mode \in {"idle", "text"} /\ Len(txt) < MaxText
            /\ UNCHANGED <<neg, digs, hist>>
 Parse == /\ mode \in {"idle", "text"}
          /\ mode' = "done"
-         /\ hist' = <<[op |-> "parse", text |-> txt, tint |-> TInt(txt), canon |-> CanonText(txt)]
-                      @@ ParseBig(txt)>>
+         \* raw: the same characters as a bare JSON value (HexInt.UnmarshalJSON falls back to SetString(s, 0),
+         \* without the prefix rules of ParseBigInt)
+         /\ hist' = <<[op |-> "parse", text |-> txt, tint |-> TInt(txt), canon |-> CanonText(txt),
+                       raw |-> Scan0(txt)] @@ ParseBig(txt)>>
          /\ UNCHANGED <<txt, neg, digs>>
 
 \* shaping: Free arbitrary leading digits, then a run of one repeated digit, then at most one other digit
